@@ -258,4 +258,73 @@ theorem secant_returns_small_step_or_error (f : ℝ → ℝ) (tol : ℝ) (n : Na
         exact ⟨p0, p1, Or.inr hlt⟩
       · exact ih _ _ _ _ _ h
 
+/-- The property's clause "failure is reported rather than a wrong root" at a flat secant: two DISTINCT abscissae with
+equal ordinates leave no secant step, and the loop raises `FinError("Tolerance reached")` — whatever `disp`, whatever
+budget is left.  (The midpoint is only returned when the two abscissae coincide.) -/
+theorem secant_flat_reports_failure (f : ℝ → ℝ) (tol : ℝ) (disp : Bool) (n : Nat) (p0 p1 q pl : ℝ) (hne : p1 ≠ p0) :
+    secantLoop f tol disp (n + 1) p0 p1 q q pl = .error .finError := by
+  unfold secantLoop
+  simp [hne]
+
+/-- Entry form: if `f` takes the same value at the two starting abscissae `x0` and `x0(1+eps) ± eps` (an objective that
+is locally flat around the start: an option payoff started out of the money, a clipped objective started outside its
+active range, a step function) then `newton_secant` reports failure for every tolerance, budget and `disp`. -/
+theorem newton_secant_flat_start_reports_failure (f : ℝ → ℝ) (eps x0 tol : ℝ) (maxiter : Int) (disp : Bool)
+    (heps : 0 < eps) (htol : 0 < tol) (hmi : 1 ≤ maxiter)
+    (hflat : f (1 * x0) = f (if x0 * (1 + eps) > 0 then x0 * (1 + eps) + eps else x0 * (1 + eps) - eps)) :
+    newton_secant f eps x0 tol maxiter disp = .error .finError := by
+  unfold newton_secant
+  rw [if_neg (not_le.mpr htol), if_neg (by omega)]
+  simp only
+  obtain ⟨n, hn⟩ : ∃ n, maxiter.toNat = n + 1 := ⟨maxiter.toNat - 1, by omega⟩
+  have hne : (if x0 * (1 + eps) > 0 then x0 * (1 + eps) + eps else x0 * (1 + eps) - eps) ≠ 1 * x0 := by
+    split
+    · rename_i h
+      have hx : 0 < x0 := by
+        by_contra hc
+        have : x0 * (1 + eps) ≤ 0 := mul_nonpos_of_nonpos_of_nonneg (not_lt.mp hc) (by linarith)
+        linarith
+      nlinarith
+    · rename_i h
+      have hx : x0 ≤ 0 := by
+        by_contra hc
+        have : 0 < x0 * (1 + eps) := mul_pos (lt_of_not_ge hc) (by linarith)
+        exact h this
+      nlinarith
+  rw [← hflat, if_neg (lt_irrefl _), hn]
+  exact secant_flat_reports_failure f tol disp n _ _ _ _ hne
+
+/-- What a number handed back by the secant loop (`disp = True`) is, with the ordinates tied to `f`: either the two
+current abscissae coincide (that point), or it is the secant update of two abscissae with DIFFERENT ordinates and the
+update moved by less than `tol`. -/
+def SecantPost (f : ℝ → ℝ) (tol x : ℝ) : Prop :=
+  ∃ a b : ℝ, (f b = f a ∧ b = a ∧ x = b) ∨ (f b ≠ f a ∧ x = secantUpdate a b (f a) (f b) ∧ |x - b| < tol)
+
+theorem secant_returns_post (f : ℝ → ℝ) (tol : ℝ) (n : Nat) (p0 p1 q0 q1 pl x : ℝ)
+    (hq0 : q0 = f p0) (hq1 : q1 = f p1)
+    (h : secantLoop f tol true n p0 p1 q0 q1 pl = .ok x) : SecantPost f tol x := by
+  induction n generalizing p0 p1 q0 q1 pl with
+  | zero => simp [secantLoop] at h
+  | succ n ih =>
+    unfold secantLoop at h
+    split at h
+    · rename_i heq
+      have heq : q1 = q0 := by simpa using heq
+      split at h
+      · simp at h
+      · rename_i hne
+        have hp : p1 = p0 := by simpa using hne
+        simp at h
+        refine ⟨p0, p1, Or.inl ⟨by rw [← hq0, ← hq1, heq], hp, ?_⟩⟩
+        rw [← h, hp]; ring
+    · rename_i hneq
+      have hneq : q1 ≠ q0 := by simpa using hneq
+      simp only at h
+      split at h
+      · rename_i hlt
+        rw [absG_eq_abs] at hlt
+        simp at h; subst h
+        exact ⟨p0, p1, Or.inr ⟨by rw [← hq0, ← hq1]; exact hneq, by rw [← hq0, ← hq1], hlt⟩⟩
+      · exact ih _ _ _ _ _ hq1 rfl h
+
 end FinVerif.Props.C20
